@@ -25,11 +25,16 @@ def ksMirror (ks : KeyState) (ok : Option ObjKeys) : Bool :=
 /-- `mirror` / `NoKeyWithoutCert`: every class of the aggregate mirrors its object class and
 there is no object class without an aggregate class. -/
 def Sys.mirrorOk (s : Sys) : Bool :=
-  s.ca.classes.all (fun p => ksMirror p.2.keys (get s.objs p.1)) &&
-  s.objs.all (fun p => (get s.ca.classes p.1).isSome)
+  (keys s.ca.classes).all (fun r => match get s.ca.classes r with
+    | some rc => ksMirror rc.keys (get s.objs r)
+    | none => true) &&
+  (keys s.objs).all (fun r => (get s.ca.classes r).isSome)
 
 /-- `single_signer`: only the current set of a class carries products. -/
-def Sys.singleSigner (s : Sys) : Bool := s.objs.all (fun p => p.2.sideSetsEmpty)
+def Sys.singleSigner (s : Sys) : Bool :=
+  (keys s.objs).all (fun r => match get s.objs r with
+    | some ok => ok.sideSetsEmpty
+    | none => true)
 
 /-- Keys of a class are pairwise different. -/
 def KeyState.distinct : KeyState → Bool
@@ -43,9 +48,14 @@ key's certificate. -/
 def Rc.noOverclaim (rc : Rc) : Bool :=
   match rc.keys.current with
   | none => rc.certs.issued.isEmpty
-  | some c => rc.certs.issued.all (fun p => subset p.2.res c.cert.res)
+  | some c => (AMap.keys rc.certs.issued).all (fun k => match get rc.certs.issued k with
+    | some cc => subset cc.res c.cert.res
+    | none => true)
 
-def Ca.noOverclaim (s : Ca) : Bool := s.classes.all (fun p => p.2.noOverclaim)
+def Ca.noOverclaim (s : Ca) : Bool :=
+  (keys s.classes).all (fun r => match get s.classes r with
+    | some rc => rc.noOverclaim
+    | none => true)
 
 /-- `never_overclaims` on the publication: every published child certificate lies inside the
 certificate of the set that publishes it. -/
